@@ -35,6 +35,7 @@ pub mod game {
 	use super::{slippi, Version, PortOccupancy};
 //@enum src/game/mod.rs Port
 //@const src/game/mod.rs ICE_CLIMBERS
+//@const src/game/mod.rs NUM_PORTS
 //@struct src/game/mod.rs Bytes
 //@struct src/game/mod.rs Player | keep=port,character
 //@struct src/game/mod.rs Start | keep=slippi,players,bytes
@@ -47,7 +48,7 @@ pub mod slippi {
 	pub use super::Version;
 //@struct src/io/slippi/mod.rs Slippi
 }
-pub open spec fn port_index(p: Port) -> int { match p { Port::P1 => 0, Port::P2 => 1, Port::P3 => 2, Port::P4 => 3 } }
+pub open spec fn port_number(p: Port) -> int { match p { Port::P1 => 0, Port::P2 => 1, Port::P3 => 2, Port::P4 => 3 } }
 
 '''
 
@@ -160,7 +161,7 @@ impl TryFrom<u8> for Event {
 //@struct src/io/slippi/de.rs PartialGame | tysub=/Option<serde_json::Map<String, serde_json::Value>>/Option<JsMap>/
 //@struct src/io/slippi/de.rs ParseState | keep=payload_sizes,bytes_read,split_accumulator,port_indexes,game
 use frame::mutable_alias::MutableFrame;
-use game::Quirks;
+use game::{Quirks, NUM_PORTS};
 type Result<T> = std::result::Result<T, Error>;
 
 pub open spec fn ver(st: &ParseState) -> Version { st.game.start.slippi.version }
@@ -312,6 +313,29 @@ impl ParseState {
 //@after f.push_null
 					proof { lemma_data_padded_step(&p0.follower->Some_0, &m1, &*f, v0, len as nat); }
 //@end
+//@fn src/io/slippi/de.rs | impl ParseState | frame_close | rules=R4 | twin=__total
+	requires state_swf(&*old(self)),
+	ensures state_swf(&*final(self)) /*[C06.frame_close_total]*/, rest_same(&*old(self), &*final(self)),
+		(*final(self)).game.frames.id == (*old(self)).game.frames.id,
+//@loop 1
+		invariant
+			len == (*old(self)).game.frames.id@.len(),
+			i__0 <= self.game.frames.ports@.len(),
+			rest_same(&*old(self), self), self.game.frames.id == (*old(self)).game.frames.id,
+			self.game.frames.start == (*old(self)).game.frames.start && self.game.frames.end == (*old(self)).game.frames.end,
+			self.game.frames.item == (*old(self)).game.frames.item && self.game.frames.item_offset == (*old(self)).game.frames.item_offset,
+			state_swf(&*old(self)),
+			forall|k: int| 0 <= k < self.game.frames.ports@.len() ==> port_wf(#[trigger] &self.game.frames.ports@[k], ver(&*old(self))),
+		decreases self.game.frames.ports@.len() - i__0,
+//@loop 2
+		invariant len == (*old(self)).game.frames.id@.len(), state_swf(&*old(self)), self.game.start == (*old(self)).game.start,
+			data_wf(&p.leader, ver(&*old(self))), p.follower is Some ==> data_wf(&p.follower->Some_0, ver(&*old(self))),
+		decreases len - p.leader.pre.len_spec(),
+//@loop 3
+		invariant len == (*old(self)).game.frames.id@.len(), state_swf(&*old(self)), self.game.start == (*old(self)).game.start,
+			data_wf(&*f, ver(&*old(self))),
+		decreases len - f.pre.len_spec(),
+//@end
 }
 
 //@fn src/io/slippi/de.rs | - | handle_splitter_event | ret=res
@@ -320,6 +344,11 @@ impl ParseState {
 		(*final(accumulator)).raw@ == (*old(accumulator)).raw@ + buf@.subrange(0, 512) /*[C01.gecko_padding_kept]*/,
 		(*final(accumulator)).actual_size == (*old(accumulator)).actual_size + be_u16(buf@, 512) /*[C01.gecko_actual_size]*/,
 		res->Ok_0 == (if buf@[515] != 0 { Some(buf@[514]) } else { None::<u8> }) /*[C01.gecko_final_block]*/,
+//@end
+
+//@fn src/io/slippi/de.rs | - | port_index | ret=res
+	ensures res is Ok == (port < 4 && state.port_indexes[port as int] < state.game.frames.ports@.len()) /*[C06.port_checked]*/,
+		res is Ok ==> res->Ok_0 == state.port_indexes[port as int],
 //@end
 
 // ---- the well-formedness premise of one event (property C04: "for every well-formed replay") ----
@@ -458,112 +487,87 @@ pub open spec fn event_effect(a: &ParseState, b: &ParseState, code0: u8, p: Seq<
 		next_event_ok(&*old(state), r.rest()),
 		r.rest().len() >= 1 ==> r.rest()[0] == 0x37,
 	ensures
-		res is Ok ==> ({
-			let rest = r.rest();
-			let code0 = rest[0];
-			let size = payload_size(&*old(state), code0);
-			&&& rest.len() >= 1 && size > 0 && rest.len() >= 1 + size
-			&&& res->Ok_0 == eff_code(&*old(state), code0, rest.subrange(1, 1 + size)) /*[C12.returns_dispatched_code]*/
-			&&& (*final(state)).bytes_read == (*old(state)).bytes_read + 1 + size /*[C12.bytes_read_accounting]*/
-			&&& state_swf(&*final(state))
-			&&& event_effect(&*old(state), &*final(state), code0, rest.subrange(1, 1 + size))
-		}),
+		res is Ok ==> r.rest().len() >= 1 && payload_size(&*old(state), r.rest()[0]) > 0 && r.rest().len() >= 1 + payload_size(&*old(state), r.rest()[0]) /*[C12.event_is_sized_by_table]*/,
+		res is Ok ==> res->Ok_0 == eff_code(&*old(state), r.rest()[0], r.rest().subrange(1, 1 + payload_size(&*old(state), r.rest()[0]))) /*[C12.returns_dispatched_code]*/,
+		res is Ok ==> (*final(state)).bytes_read == (*old(state)).bytes_read + 1 + payload_size(&*old(state), r.rest()[0]) /*[C12.bytes_read_accounting]*/,
+		res is Ok ==> state_swf(&*final(state)) /*[C04.state_stays_well_formed]*/,
+		res is Ok ==> event_effect(&*old(state), &*final(state), r.rest()[0], r.rest().subrange(1, 1 + payload_size(&*old(state), r.rest()[0]))) /*[C04.event_effect]*/,
 //@end
 //@fn src/io/slippi/de.rs | - | parse_event | ret=res | twin=__post | drop=if let Some\(ref d\) = opts | drop=\*state\.event_counts\.entry | sub=/r.read_exact(&mut buf)?/r.read_exact(buf.as_mut_slice())?/ | sub=/bytes: buf.to_vec(),/bytes: to_vec_u8(&buf),/
 	requires within_input_bound(&*old(state)), state_swf(&*old(state)), r.inv(),
 		next_event_ok(&*old(state), r.rest()),
 		r.rest().len() >= 1 ==> r.rest()[0] == 0x38,
 	ensures
-		res is Ok ==> ({
-			let rest = r.rest();
-			let code0 = rest[0];
-			let size = payload_size(&*old(state), code0);
-			&&& rest.len() >= 1 && size > 0 && rest.len() >= 1 + size
-			&&& res->Ok_0 == eff_code(&*old(state), code0, rest.subrange(1, 1 + size)) /*[C12.returns_dispatched_code]*/
-			&&& (*final(state)).bytes_read == (*old(state)).bytes_read + 1 + size /*[C12.bytes_read_accounting]*/
-			&&& state_swf(&*final(state))
-			&&& event_effect(&*old(state), &*final(state), code0, rest.subrange(1, 1 + size))
-		}),
+		res is Ok ==> r.rest().len() >= 1 && payload_size(&*old(state), r.rest()[0]) > 0 && r.rest().len() >= 1 + payload_size(&*old(state), r.rest()[0]) /*[C12.event_is_sized_by_table]*/,
+		res is Ok ==> res->Ok_0 == eff_code(&*old(state), r.rest()[0], r.rest().subrange(1, 1 + payload_size(&*old(state), r.rest()[0]))) /*[C12.returns_dispatched_code]*/,
+		res is Ok ==> (*final(state)).bytes_read == (*old(state)).bytes_read + 1 + payload_size(&*old(state), r.rest()[0]) /*[C12.bytes_read_accounting]*/,
+		res is Ok ==> state_swf(&*final(state)) /*[C04.state_stays_well_formed]*/,
+		res is Ok ==> event_effect(&*old(state), &*final(state), r.rest()[0], r.rest().subrange(1, 1 + payload_size(&*old(state), r.rest()[0]))) /*[C04.event_effect]*/,
 //@end
 //@fn src/io/slippi/de.rs | - | parse_event | ret=res | twin=__start | drop=if let Some\(ref d\) = opts | drop=\*state\.event_counts\.entry | sub=/r.read_exact(&mut buf)?/r.read_exact(buf.as_mut_slice())?/ | sub=/bytes: buf.to_vec(),/bytes: to_vec_u8(&buf),/
 	requires within_input_bound(&*old(state)), state_swf(&*old(state)), r.inv(),
 		next_event_ok(&*old(state), r.rest()),
 		r.rest().len() >= 1 ==> r.rest()[0] == 0x3A,
 	ensures
-		res is Ok ==> ({
-			let rest = r.rest();
-			let code0 = rest[0];
-			let size = payload_size(&*old(state), code0);
-			&&& rest.len() >= 1 && size > 0 && rest.len() >= 1 + size
-			&&& res->Ok_0 == eff_code(&*old(state), code0, rest.subrange(1, 1 + size)) /*[C12.returns_dispatched_code]*/
-			&&& (*final(state)).bytes_read == (*old(state)).bytes_read + 1 + size /*[C12.bytes_read_accounting]*/
-			&&& state_swf(&*final(state))
-			&&& event_effect(&*old(state), &*final(state), code0, rest.subrange(1, 1 + size))
-		}),
+		res is Ok ==> r.rest().len() >= 1 && payload_size(&*old(state), r.rest()[0]) > 0 && r.rest().len() >= 1 + payload_size(&*old(state), r.rest()[0]) /*[C12.event_is_sized_by_table]*/,
+		res is Ok ==> res->Ok_0 == eff_code(&*old(state), r.rest()[0], r.rest().subrange(1, 1 + payload_size(&*old(state), r.rest()[0]))) /*[C12.returns_dispatched_code]*/,
+		res is Ok ==> (*final(state)).bytes_read == (*old(state)).bytes_read + 1 + payload_size(&*old(state), r.rest()[0]) /*[C12.bytes_read_accounting]*/,
+		res is Ok ==> state_swf(&*final(state)) /*[C04.state_stays_well_formed]*/,
+		res is Ok ==> event_effect(&*old(state), &*final(state), r.rest()[0], r.rest().subrange(1, 1 + payload_size(&*old(state), r.rest()[0]))) /*[C04.event_effect]*/,
 //@end
 //@fn src/io/slippi/de.rs | - | parse_event | ret=res | twin=__item | drop=if let Some\(ref d\) = opts | drop=\*state\.event_counts\.entry | sub=/r.read_exact(&mut buf)?/r.read_exact(buf.as_mut_slice())?/ | sub=/bytes: buf.to_vec(),/bytes: to_vec_u8(&buf),/
 	requires within_input_bound(&*old(state)), state_swf(&*old(state)), r.inv(),
 		next_event_ok(&*old(state), r.rest()),
 		r.rest().len() >= 1 ==> r.rest()[0] == 0x3B,
 	ensures
-		res is Ok ==> ({
-			let rest = r.rest();
-			let code0 = rest[0];
-			let size = payload_size(&*old(state), code0);
-			&&& rest.len() >= 1 && size > 0 && rest.len() >= 1 + size
-			&&& res->Ok_0 == eff_code(&*old(state), code0, rest.subrange(1, 1 + size)) /*[C12.returns_dispatched_code]*/
-			&&& (*final(state)).bytes_read == (*old(state)).bytes_read + 1 + size /*[C12.bytes_read_accounting]*/
-			&&& state_swf(&*final(state))
-			&&& event_effect(&*old(state), &*final(state), code0, rest.subrange(1, 1 + size))
-		}),
+		res is Ok ==> r.rest().len() >= 1 && payload_size(&*old(state), r.rest()[0]) > 0 && r.rest().len() >= 1 + payload_size(&*old(state), r.rest()[0]) /*[C12.event_is_sized_by_table]*/,
+		res is Ok ==> res->Ok_0 == eff_code(&*old(state), r.rest()[0], r.rest().subrange(1, 1 + payload_size(&*old(state), r.rest()[0]))) /*[C12.returns_dispatched_code]*/,
+		res is Ok ==> (*final(state)).bytes_read == (*old(state)).bytes_read + 1 + payload_size(&*old(state), r.rest()[0]) /*[C12.bytes_read_accounting]*/,
+		res is Ok ==> state_swf(&*final(state)) /*[C04.state_stays_well_formed]*/,
+		res is Ok ==> event_effect(&*old(state), &*final(state), r.rest()[0], r.rest().subrange(1, 1 + payload_size(&*old(state), r.rest()[0]))) /*[C04.event_effect]*/,
 //@end
 //@fn src/io/slippi/de.rs | - | parse_event | ret=res | twin=__end | drop=if let Some\(ref d\) = opts | drop=\*state\.event_counts\.entry | sub=/r.read_exact(&mut buf)?/r.read_exact(buf.as_mut_slice())?/ | sub=/bytes: buf.to_vec(),/bytes: to_vec_u8(&buf),/
 	requires within_input_bound(&*old(state)), state_swf(&*old(state)), r.inv(),
 		next_event_ok(&*old(state), r.rest()),
 		r.rest().len() >= 1 ==> r.rest()[0] == 0x3C,
 	ensures
-		res is Ok ==> ({
-			let rest = r.rest();
-			let code0 = rest[0];
-			let size = payload_size(&*old(state), code0);
-			&&& rest.len() >= 1 && size > 0 && rest.len() >= 1 + size
-			&&& res->Ok_0 == eff_code(&*old(state), code0, rest.subrange(1, 1 + size)) /*[C12.returns_dispatched_code]*/
-			&&& (*final(state)).bytes_read == (*old(state)).bytes_read + 1 + size /*[C12.bytes_read_accounting]*/
-			&&& state_swf(&*final(state))
-			&&& event_effect(&*old(state), &*final(state), code0, rest.subrange(1, 1 + size))
-		}),
+		res is Ok ==> r.rest().len() >= 1 && payload_size(&*old(state), r.rest()[0]) > 0 && r.rest().len() >= 1 + payload_size(&*old(state), r.rest()[0]) /*[C12.event_is_sized_by_table]*/,
+		res is Ok ==> res->Ok_0 == eff_code(&*old(state), r.rest()[0], r.rest().subrange(1, 1 + payload_size(&*old(state), r.rest()[0]))) /*[C12.returns_dispatched_code]*/,
+		res is Ok ==> (*final(state)).bytes_read == (*old(state)).bytes_read + 1 + payload_size(&*old(state), r.rest()[0]) /*[C12.bytes_read_accounting]*/,
+		res is Ok ==> state_swf(&*final(state)) /*[C04.state_stays_well_formed]*/,
+		res is Ok ==> event_effect(&*old(state), &*final(state), r.rest()[0], r.rest().subrange(1, 1 + payload_size(&*old(state), r.rest()[0]))) /*[C04.event_effect]*/,
 //@end
 //@fn src/io/slippi/de.rs | - | parse_event | ret=res | twin=__splitter | drop=if let Some\(ref d\) = opts | drop=\*state\.event_counts\.entry | sub=/r.read_exact(&mut buf)?/r.read_exact(buf.as_mut_slice())?/ | sub=/bytes: buf.to_vec(),/bytes: to_vec_u8(&buf),/
 	requires within_input_bound(&*old(state)), state_swf(&*old(state)), r.inv(),
 		next_event_ok(&*old(state), r.rest()),
 		r.rest().len() >= 1 ==> r.rest()[0] == 0x10,
 	ensures
-		res is Ok ==> ({
-			let rest = r.rest();
-			let code0 = rest[0];
-			let size = payload_size(&*old(state), code0);
-			&&& rest.len() >= 1 && size > 0 && rest.len() >= 1 + size
-			&&& res->Ok_0 == eff_code(&*old(state), code0, rest.subrange(1, 1 + size)) /*[C12.returns_dispatched_code]*/
-			&&& (*final(state)).bytes_read == (*old(state)).bytes_read + 1 + size /*[C12.bytes_read_accounting]*/
-			&&& state_swf(&*final(state))
-			&&& event_effect(&*old(state), &*final(state), code0, rest.subrange(1, 1 + size))
-		}),
+		res is Ok ==> r.rest().len() >= 1 && payload_size(&*old(state), r.rest()[0]) > 0 && r.rest().len() >= 1 + payload_size(&*old(state), r.rest()[0]) /*[C12.event_is_sized_by_table]*/,
+		res is Ok ==> res->Ok_0 == eff_code(&*old(state), r.rest()[0], r.rest().subrange(1, 1 + payload_size(&*old(state), r.rest()[0]))) /*[C12.returns_dispatched_code]*/,
+		res is Ok ==> (*final(state)).bytes_read == (*old(state)).bytes_read + 1 + payload_size(&*old(state), r.rest()[0]) /*[C12.bytes_read_accounting]*/,
+		res is Ok ==> state_swf(&*final(state)) /*[C04.state_stays_well_formed]*/,
+		res is Ok ==> event_effect(&*old(state), &*final(state), r.rest()[0], r.rest().subrange(1, 1 + payload_size(&*old(state), r.rest()[0]))) /*[C04.event_effect]*/,
 //@end
 //@fn src/io/slippi/de.rs | - | parse_event | ret=res | twin=__other | drop=if let Some\(ref d\) = opts | drop=\*state\.event_counts\.entry | sub=/r.read_exact(&mut buf)?/r.read_exact(buf.as_mut_slice())?/ | sub=/bytes: buf.to_vec(),/bytes: to_vec_u8(&buf),/
 	requires within_input_bound(&*old(state)), state_swf(&*old(state)), r.inv(),
 		next_event_ok(&*old(state), r.rest()),
 		r.rest().len() >= 1 ==> r.rest()[0] != 0x37 && r.rest()[0] != 0x38 && r.rest()[0] != 0x3A && r.rest()[0] != 0x3B && r.rest()[0] != 0x3C && r.rest()[0] != 0x10,
 	ensures
-		res is Ok ==> ({
-			let rest = r.rest();
-			let code0 = rest[0];
-			let size = payload_size(&*old(state), code0);
-			&&& rest.len() >= 1 && size > 0 && rest.len() >= 1 + size
-			&&& res->Ok_0 == eff_code(&*old(state), code0, rest.subrange(1, 1 + size)) /*[C12.returns_dispatched_code]*/
-			&&& (*final(state)).bytes_read == (*old(state)).bytes_read + 1 + size /*[C12.bytes_read_accounting]*/
-			&&& state_swf(&*final(state))
-			&&& event_effect(&*old(state), &*final(state), code0, rest.subrange(1, 1 + size))
-		}),
+		res is Ok ==> r.rest().len() >= 1 && payload_size(&*old(state), r.rest()[0]) > 0 && r.rest().len() >= 1 + payload_size(&*old(state), r.rest()[0]) /*[C12.event_is_sized_by_table]*/,
+		res is Ok ==> res->Ok_0 == eff_code(&*old(state), r.rest()[0], r.rest().subrange(1, 1 + payload_size(&*old(state), r.rest()[0]))) /*[C12.returns_dispatched_code]*/,
+		res is Ok ==> (*final(state)).bytes_read == (*old(state)).bytes_read + 1 + payload_size(&*old(state), r.rest()[0]) /*[C12.bytes_read_accounting]*/,
+		res is Ok ==> state_swf(&*final(state)) /*[C04.state_stays_well_formed]*/,
+		res is Ok ==> event_effect(&*old(state), &*final(state), r.rest()[0], r.rest().subrange(1, 1 + payload_size(&*old(state), r.rest()[0]))) /*[C04.event_effect]*/,
+//@end
+
+// ---- C06: the same bodies with NO premise on the bytes: every assert / unwrap / index / arithmetic site must be safe ----
+//@fn src/io/slippi/de.rs | - | handle_splitter_event | ret=res | twin=__total
+	requires (*old(accumulator)).actual_size <= 0x7fff_ffff,
+	ensures true,
+//@end
+//@fn src/io/slippi/de.rs | - | parse_event | ret=res | twin=__total | drop=if let Some\(ref d\) = opts | drop=\*state\.event_counts\.entry | sub=/r.read_exact(&mut buf)?/r.read_exact(buf.as_mut_slice())?/ | sub=/bytes: buf.to_vec(),/bytes: to_vec_u8(&buf),/ | sub=/handle_splitter_event(/handle_splitter_event__total(/ | sub=/state.frame_close();/state.frame_close__total();/
+	requires within_input_bound(&*old(state)), state_swf(&*old(state)), r.inv(),
+	ensures res is Ok ==> state_swf(&*final(state)) /*[C06.state_stays_well_formed]*/,
 //@end
 '''
 
